@@ -273,6 +273,7 @@ func Run(c *verdict.Ctx) int {
 	}
 	close(next)
 	wg.Wait()
+	runSimStage(c) // consensus path: equivocation seen by real consensus states ends up in blocks once
 	return c.Finish(n * 3 / 4)
 }
 
